@@ -392,6 +392,6 @@ def harnesses(tier):
                                       params=dict(n_derived=4, share=sh, action=ac, preludes=(pre,)), validate=30, weight=9, wall_s=3400,
                                       max_paths=1000000, bounds=dict(stored=2, derived=4, action=['remove', 'update_id'][ac],
                                                                      shared_left_operand=bool(sh), prelude=pre)))
-        hs.append(Harness('removal n=3 off hub', body_removal, params=dict(n_derived=3, on_hub=False), validate=30,
-                          bounds=dict(stored=2, derived=3, on_hub=False)))
+        hs.append(Harness('removal n=3 off hub', body_removal, params=dict(n_derived=3, on_hub=False, preludes=(0, 1)), validate=30,
+                          wall_s=3400, max_paths=1000000, bounds=dict(stored=2, derived=3, on_hub=False)))
     return hs
